@@ -143,6 +143,11 @@ class RedfieldRelaxationTensor(RelaxationTensor):
             if copy:
                 import copy
                 oper_ven = copy.copy(oper)
+                # a copy made inside a basis context has to be registered
+                # so that it is transformed back on exit
+                cb = self.manager.get_current_basis()
+                if (cb != 0) and (oper_ven.get_current_basis() == cb):
+                    self.manager.register_with_basis(cb, oper_ven)
             else:
                 oper_ven = oper
             
